@@ -40,6 +40,8 @@ def _base_configs():
     # the content must still be the composition-weighted third moment, with either iterator and over several solve calls
     c.append(dict(tag="noninf-constant-xbeta-rk4", phases=[dict(ph, infinite=False)], cb=0.0, D=1e-16, calls=[(40.0, 0.02), (60.0, 0.02)], iter="rk4"))
     c.append(dict(tag="noninf-constant-xbeta-euler", phases=[dict(ph, infinite=False)], cb=0.0, D=1e-16, calls=[(40.0, 0.02), (60.0, 0.02)], iter="euler"))
+    # ... and across replacements of the grid (open finding: the integrated content does not follow the volume the re-mesh loses or gains)
+    c.append(dict(tag="noninf-constant-xbeta-new-grid", phases=[dict(ph, infinite=False)], cb=0.0, D=1e-15, pbm=(1e-10, 1e-9, 24, 12, 36, True), calls=[(400.0, 0.01)], iter="euler"))
     c.append(dict(tag="inf-constant-xbeta-rk4", phases=[ph], cb=0.0, D=1e-16, calls=[(100.0, 0.02)], iter="rk4"))
     # size classes set for all phases in one call (the usual call): every phase keeps its own distribution
     g2 = dict(name="gamma", gamma=0.06, xe0=0.004, K=1.2e5, xb=0.3, VmB=1.2e-5)
